@@ -51,6 +51,10 @@ ExpandLogic(h) ==
                                        Cmp("in", nC, Lst(<<mC, IntL(3)>>)), Cmp("in", nC, Lst(<<Bin("add", mC, IntL(1)), Bin("sub", IntL(0), mC)>>)) } }
                   \cup { <<1, Bool("and", HB, HB)>>, <<1, Bool("or", HB, HB)>>, <<1, Un("not", HB)>>,
                          <<1, Cmp("eq", HB, BoolL("true"))>>, <<1, Cmp("ne", HB, BoolL("false"))>> }
+                  \* chains of three and four operands of one connective whose FIRST operand is a group of the other one
+                  \cup { <<1, Bool("and", Bool("and", Bool("or", HB, Cmp("eq", nC, IntL(1))), Cmp("ge", mC, IntL(0))), Cmp("ne", sC, NullL))>>,
+                         <<1, Bool("and", Bool("and", Bool("and", Bool("or", Cmp("lt", nC, mC), HB), Cmp("ge", mC, IntL(0))), Cmp("ne", sC, NullL)), Cmp("eq", nC, NullL))>>,
+                         <<1, Bool("or", Bool("or", Bool("and", HB, Cmp("eq", nC, IntL(1))), Cmp("lt", nC, mC)), Cmp("eq", sC, SL(<<97>>)))>> }
 ExpandArith(h) ==
   CASE h = "B" -> { <<0, Cmp(o, HI, a)>> : o \in {"eq", "lt", "ge", "ne"}, a \in {IntL(1), mC} }
                   \cup { <<0, Cmp("gt", IntL(0), HI)>>, <<0, Cmp("in", HI, Lst(<<IntL(-2), IntL(3)>>))>> }
